@@ -3,6 +3,8 @@
 package seam
 
 import (
+	"crypto/tls"
+	"net"
 	"sync"
 
 	"go.temporal.io/server/api/adminservice/v1"
@@ -62,3 +64,59 @@ func GRPCNewClient(target string, opts ...grpc.DialOption) (*grpc.ClientConn, er
 	opts = append(opts, grpc.WithContextDialer(simnet.DialContext))
 	return grpc.NewClient("passthrough:///"+target, opts...)
 }
+
+// ---- TLS endpoints of the mux transport ----
+
+// hsConn is a *tls.Conn whose lazy handshake is serialised through channels. crypto/tls
+// guards the handshake with a sync.Mutex; yamux reads and writes a fresh connection from two
+// goroutines at once, so one of them waits on that mutex while the other is in the
+// handshake's network read - and a goroutine waiting on a sync.Mutex is not "durably
+// blocked" for testing/synctest: the bubble never goes idle and the simulation stalls. Here
+// the first caller runs Handshake and everybody else waits on a channel. The handshake, its
+// configuration and everything after it are crypto/tls's own.
+type hsConn struct {
+	*tls.Conn
+	first chan struct{}
+	done  chan struct{}
+	err   error
+}
+
+func wrapTLS(c *tls.Conn) net.Conn {
+	return &hsConn{Conn: c, first: make(chan struct{}, 1), done: make(chan struct{})}
+}
+
+func (c *hsConn) handshake() error {
+	select {
+	case <-c.done:
+		return c.err
+	default:
+	}
+	select {
+	case c.first <- struct{}{}:
+		c.err = c.Conn.Handshake()
+		close(c.done)
+		return c.err
+	case <-c.done:
+		return c.err
+	}
+}
+
+func (c *hsConn) Read(p []byte) (int, error) {
+	if err := c.handshake(); err != nil {
+		return 0, err
+	}
+	return c.Conn.Read(p)
+}
+
+func (c *hsConn) Write(p []byte) (int, error) {
+	if err := c.handshake(); err != nil {
+		return 0, err
+	}
+	return c.Conn.Write(p)
+}
+
+// TLSServer replaces tls.Server in transport/mux/receiver.go.
+func TLSServer(conn net.Conn, cfg *tls.Config) net.Conn { return wrapTLS(tls.Server(conn, cfg)) }
+
+// TLSClient replaces tls.Client in transport/mux/establisher.go.
+func TLSClient(conn net.Conn, cfg *tls.Config) net.Conn { return wrapTLS(tls.Client(conn, cfg)) }
